@@ -113,3 +113,80 @@ pub fn run_size(w: &[&str]) -> String {
         _ => "bad-op".into()
     }
 }
+
+
+/// `aiter <array|map> <adaptor> <hex>`: `Decoder::array_iter::<u8>()` / `map_iter::<u8, u8>()` driven through an iterator
+/// adaptor, next to the same thing done with plain `next()` calls on a second decoder (what the adaptor is defined to
+/// mean: `nth(n)` = n+1 calls of `next`, `skip(n)` = n calls then the rest, `step_by(k)` = every k-th, `last`, `count`).
+/// adaptor: `all` | `nth:<n>` | `skip:<n>` | `step:<k>` | `take:<n>` | `last` | `count`
+/// Output: `<adaptor transcript> @<pos> | <reference transcript> @<pos>`; items are `<v>` / `<k>=<v>` / `E:<class>`.
+pub fn run_aiter(w: &[&str]) -> String {
+    if w.len() != 3 { return "bad-op".into() }
+    let input = match unhex(w[2]) { Some(b) => b, None => return "bad-op".into() };
+    let (ad, arg) = match w[1].split_once(':') { Some((a, n)) => (a, n.parse::<usize>().ok()), None => (w[1], None) };
+    let arg = arg.unwrap_or(0);
+    if arg > 100000 { return "bad-op".into() }
+    fn item<T: std::fmt::Display>(r: Result<T, minicbor::decode::Error>) -> String {
+        match r { Ok(v) => v.to_string(), Err(e) => format!("E:{}", dclass(&e)) }
+    }
+    struct KV(u8, u8);
+    impl std::fmt::Display for KV { fn fmt(&self, f: &mut std::fmt::Formatter) -> std::fmt::Result { write!(f, "{}={}", self.0, self.1) } }
+    // drive an iterator of results through the adaptor (a) and through plain next() calls (b); stop after an error
+    // (an iterator over an indefinite container may keep answering with errors) and after 4096 items
+    fn through<I: Iterator<Item = String>>(mut it: I, ad: &str, n: usize, reference: bool) -> Option<Vec<String>> {
+        let cap = 4096;
+        let mut out = Vec::new();
+        macro_rules! push { ($x:expr) => {{ let x: String = $x; let stop = x.starts_with("E:"); out.push(x); if stop || out.len() >= cap { return Some(out) } }} }
+        match (ad, reference) {
+            ("all", _) => { while let Some(x) = it.next() { push!(x) } }
+            ("nth", false) => { match it.nth(n) { Some(x) => push!(x), None => out.push("none".into()) } while let Some(x) = it.next() { push!(x) } }
+            ("nth", true) => {
+                // n items are consumed and dropped whatever they are (errors included), the next one is the answer
+                let mut last = None;
+                for _ in 0 ..= n { last = it.next(); if last.is_none() { break } }
+                match last { Some(x) => push!(x), None => out.push("none".into()) }
+                while let Some(x) = it.next() { push!(x) }
+            }
+            ("skip", false) => { for x in it.skip(n) { push!(x) } }
+            ("skip", true) => {
+                for _ in 0 .. n { if it.next().is_none() { return Some(out) } }
+                while let Some(x) = it.next() { push!(x) }
+            }
+            ("step", false) => { if n == 0 { return None } for x in it.step_by(n) { push!(x) } }
+            ("step", true) => {
+                if n == 0 { return None }
+                let mut i = 0usize;
+                while let Some(x) = it.next() { if i % n == 0 { push!(x) } i += 1; if i > 1 << 20 { break } }
+            }
+            ("take", false) => { for x in it.by_ref().take(n) { push!(x) } out.push("|".into()); while let Some(x) = it.next() { push!(x) } }
+            ("take", true) => { for _ in 0 .. n { match it.next() { Some(x) => push!(x), None => break } } out.push("|".into()); while let Some(x) = it.next() { push!(x) } }
+            ("last", false) => { match it.last() { Some(x) => out.push(x), None => out.push("none".into()) } }
+            ("last", true) => { let mut l = None; while let Some(x) = it.next() { let e = x.starts_with("E:"); l = Some(x); if e { break } } out.push(l.unwrap_or("none".into())) }
+            ("count", false) => { out.push(it.count().to_string()) }
+            ("count", true) => { let mut c = 0usize; while let Some(x) = it.next() { c += 1; if x.starts_with("E:") || c >= cap { break } } out.push(c.to_string()) }
+            _ => return None
+        }
+        Some(out)
+    }
+    let mut res = Vec::new();
+    for reference in [false, true] {
+        let mut d = Decoder::new(&input);
+        let tr = match w[0] {
+            "array" => match d.array_iter::<u8>() {
+                Ok(it) => through(it.map(item), ad, arg, reference),
+                Err(e) => Some(vec![format!("open:E:{}", dclass(&e))])
+            },
+            "arrayc" => { let mut ctx = (); match d.array_iter_with::<(), u8>(&mut ctx) {
+                Ok(it) => through(it.map(item), ad, arg, reference),
+                Err(e) => Some(vec![format!("open:E:{}", dclass(&e))]) } }
+            "map" => match d.map_iter::<u8, u8>() {
+                Ok(it) => through(it.map(|r| item(r.map(|(k, v)| KV(k, v)))), ad, arg, reference),
+                Err(e) => Some(vec![format!("open:E:{}", dclass(&e))])
+            },
+            _ => None
+        };
+        // `count` / `last` with an error inside an indefinite container do not terminate by contract: those scripts are not generated
+        match tr { Some(t) => res.push(format!("{} @{}", if t.is_empty() { "-".into() } else { t.join(",") }, d.position())), None => return "bad-op".into() }
+    }
+    format!("{} | {}", res[0], res[1])
+}
